@@ -13,7 +13,7 @@ THEOREMS = [(M, "NQ.C08." + n) for n in [
     "transpile_simulates_final_partial", "pad_is_set", "set_writes_gen",
     "templates_eq_nvdecomp", "expandSound_of_C07", "transpile_simulates_C07_partial",
     "mov_unknown_emits_ec", "f10_nonQ_register_asserts", "sets_only_scratch_gen", "seeded_scratch_registers",
-    "seeded_cache_violates_scratch_ok",
+    "seeded_cache_violates_scratch_ok", "seeded_index_loop_head",
     "f10_counterexample_asserts", "f10_counterexample_stale", "f26_fixed_witness"]]
 TRANSLATORS = ["nv_expand", "nv_decomp"]
 LEVEL_TEXT = (
@@ -199,6 +199,31 @@ def run(ctx):
     for dbg in (False, True):
         oracle("corpus-seeded-scratch", w_scr, 4, debug=dbg)
         syntactic("corpus", w_scr, dbg, False)
+    # seeded change C08_1: a loop whose head (the branch target) is a carbon-carbon gate, debug markers on
+    Mb = H.M
+    w_head = [H.ins("core.SetInstruction", H.reg(Rb, 0), H.imm(0)), H.ins("core.SetInstruction", H.reg(Rb, 1), H.imm(1)),
+              H.ins("core.SetInstruction", H.reg(Rb, 2), H.imm(3)), H.ins("core.SetInstruction", H.reg(Rb, 5), H.imm(0)),
+              H.ins("core.SetInstruction", H.reg(Qb, 0), H.imm(1)), H.ins("core.SetInstruction", H.reg(Qb, 1), H.imm(2)),
+              H.ins("vanilla.GateHInstruction", H.reg(Qb, 0)),
+              H.ins("core.AddInstruction", H.reg(Rb, 5), H.reg(Rb, 5), H.reg(Rb, 2)),
+              H.ins("core.AddInstruction", H.reg(Rb, 5), H.reg(Rb, 5), H.reg(Rb, 2)),
+              H.ins("vanilla.CnotInstruction", H.reg(Qb, 0), H.reg(Qb, 1)),       # 9 = loop head
+              H.ins("vanilla.GateTInstruction", H.reg(Qb, 1)),
+              H.ins("core.AddInstruction", H.reg(Rb, 0), H.reg(Rb, 0), H.reg(Rb, 1)),
+              H.ins("core.BltInstruction", H.reg(Rb, 0), H.reg(Rb, 2), H.imm(9)),
+              H.ins("core.SetInstruction", H.reg(Qb, 2), H.imm(0)), H.ins("vanilla.GateHInstruction", H.reg(Qb, 2))]
+    # forward: a skipped block joining at a carbon-carbon cphase
+    w_join = [H.ins("core.SetInstruction", H.reg(Rb, 0), H.imm(1)), H.ins("core.SetInstruction", H.reg(Qb, 0), H.imm(2)),
+              H.ins("core.SetInstruction", H.reg(Qb, 1), H.imm(1)),
+              H.ins("core.BnzInstruction", H.reg(Rb, 0), H.imm(6)),
+              H.ins("core.SetInstruction", H.reg(Qb, 3), H.imm(0)), H.ins("vanilla.GateXInstruction", H.reg(Qb, 3)),
+              H.ins("vanilla.CphaseInstruction", H.reg(Qb, 0), H.reg(Qb, 1)),     # 6 = join point
+              H.ins("core.SetInstruction", H.reg(Rb, 5), H.imm(7))]
+    for dbg in (False, True):
+        oracle("corpus-target-is-cc", w_head, 3, debug=dbg)
+        oracle("corpus-target-is-cc", w_join, 3, debug=dbg)
+        syntactic("corpus", w_head, dbg, False)
+        syntactic("corpus", w_join, dbg, False)
     oracle("corpus-F10-assert", w_assert, 3, _G([(5, 0, 0)]))
     oracle("corpus-F10-stale", w_stale, 3, _G([(6, 0, 0)]))
     # F26 (fixed): branch across a carbon-carbon gate with debug markers
@@ -225,7 +250,9 @@ def run(ctx):
             res.count("feature:" + f)
         dbg = rng.random() < 0.5
         # programs with a run-time-id mov are outside QStatic by definition (own tag, oracle still runs)
-        tag = "struct-load" if loads else ("struct-movR" if "mov-runtime-ids" in g.features else "struct")
+        tag = "struct-load" if loads else ("struct-movR" if "mov-runtime-ids" in g.features else
+                                           ("struct-tgt" if any(f.startswith("target-is-") for f in g.features)
+                                            else "struct"))
         syntactic(tag, js, dbg, rng.random() < 0.3)
         oracle(tag, js, nq, g, debug=dbg)
     flush_syntactic()
